@@ -220,7 +220,7 @@ Variable a : nat -> mi -> mi -> R.
 Hypothesis a_local : local a.
 Hypothesis Ploc : P_local.
 Hypothesis meshes : forall k, k < numlevels st -> mesh_ok (msh st k).
-Hypothesis dims : forall k k', dim (msh st k) = dim (msh st k').
+Hypothesis dims : forall k k', k < numlevels st -> k' < numlevels st -> dim (msh st k) = dim (msh st k').
 Hypothesis AF_in_F : forall k f, In f (AFm st k) -> In f (tp_functions (msh st k)).
 Hypothesis il_in_F : forall k r, In r (interlevel R st pmat k) -> In r (tp_functions (msh st k)).
 
@@ -239,7 +239,7 @@ Proof.
     { intros x Hx Hxj. apply Hn. unfold nbr.
       apply (neighbors_complete_l st None lj li fi fj x); auto.
       - apply meshes. lia.
-      - rewrite anc_length. rewrite (dims li lj). apply (mo_len _ (meshes lj HL)).
+      - rewrite anc_length. rewrite (dims li lj ltac:(lia) HL). apply (mo_len _ (meshes lj HL)).
         apply (mo_incells _ (meshes lj HL) fj); auto.
       - apply (grand_support Ploc (lj - li) li fi r x); auto. replace (li + (lj - li)) with lj by lia. exact Hx. }
     split.
